@@ -6,7 +6,7 @@ CHECKS = {
         "level": "other",
         "quick_fs": ["default"],
         "thorough_fs": ["default", "checks", "no_copy_impls", "both"],
-        "technique": "MIR decision-tree extraction of match arms (private helpers walked in context) + def-use resolution of call arguments; canonical code-class table; sibling cross-check; whole-domain abstract interpretation for length expressions that are not calls of a known length function",
+        "technique": "MIR decision-tree extraction of match arms (private helpers walked in context) + def-use resolution of call arguments; canonical code-class table; sibling cross-check; whole-domain abstract interpretation for length expressions that are not calls of a known length function; function-pointer constructors: abstract interpretation of the selection function on every variant and parameter value (match arms, range patterns or lookup tables alike), then classification of the selected closure",
         "claim": "Exhaustive over the finite arm space of all 10 dispatch tables (3x Codes, 3x ConstCode, 4x function-pointer constructors incl. the factory: 12+51+59 keys each) and 15 forwarding wrappers: every arm performs exactly one stream operation, of the canonical code class its key names, on the dispatcher's own stream/value arguments, and returns that operation's result; read/write/len siblings agree per key; key sets agree. A length arm written as a formula instead of a call (e.g. a closed form for VByte) is compared with the class's length function on every 64-bit value by the value-partition interpreter. Decides which code is performed, not that the code's own method is right (C03/C04).",
         "note": "Trusted: rustc MIR construction, the exporter, the callee->family table and the canonical identities of DESIGN.md appendix A (zeta1=pi0=expgolomb0=gamma, rice0=golomb1=unary, golomb(2^j)=rice(j)).",
         "explanation": "Exhaustive structural check of every dispatch table in the exported MIR: each match arm / "
@@ -21,8 +21,8 @@ CHECKS["C16"] = {
     "level": "other",
     "quick_fs": ["default"],
     "thorough_fs": ["default", "both"],
-    "technique": "MIR decision trees of Display/FromStr/PartialEq with helpers walked in context; decoded format templates; abstract interpretation of to_code_const / from_code_const over every variant, parameter and identifier value; canonical code-class table",
-    "claim": "Exhaustive over the finite tables: for each of the 11 variants the text Display prints (literal, or Name({field}) decoded from the compiled format template) reaches a FromStr arm that constructs the same variant with the parsed number in the same field; unknown names fall through to Err and every Option/Result on the parameter path is branched on (by `?` or a match) with its failure leading to Err, never defaulted; to_code_const and from_code_const, interpreted as functions on every (variant, parameter) and every identifier value (so range patterns, arithmetic on the identifier or enumerated arms are all the same to the rule), map between codes and identifiers of one canonical class, are mutually inverse on 0..=50, and yield an error everywhere else; every pair PartialEq declares equal lies in one canonical class and every variant equals itself. Numeric parsing itself is std's.",
+    "technique": "MIR decision trees of Display/FromStr with helpers walked in context; decoded format templates; abstract interpretation of to_code_const / from_code_const / PartialEq::eq over every variant, parameter cell and identifier value (relational split of parameter comparisons); canonical code-class table",
+    "claim": "Exhaustive over the finite tables: for each of the 11 variants the text Display prints (literal, or Name({field}) decoded from the compiled format template) reaches a FromStr arm that constructs the same variant with the parsed number in the same field; unknown names fall through to Err and every Option/Result on the parameter path is branched on (by `?` or a match) with its failure leading to Err, never defaulted; to_code_const and from_code_const, interpreted as functions on every (variant, parameter) and every identifier value (so range patterns, arithmetic on the identifier or enumerated arms are all the same to the rule), map between codes and identifiers of one canonical class, are mutually inverse on 0..=50, and yield an error everywhere else; every pair PartialEq declares equal lies in one canonical class and every variant equals itself. Numeric parsing itself is std's. PartialEq::eq is interpreted on every pair of (variant, parameter cell) - the constants the code mentions as singletons, the gaps between them as cells, a pair of values from one gap split into equal / different - so the verdict does not depend on how the arms are written.",
     "note": "Trusted: rustc MIR construction and format_args lowering (byte template), the exporter, the canonical identities of DESIGN.md appendix A.2, std's str::split/parse contracts.",
     "explanation": "Structural, exhaustive over match arms: Display arms are decoded from the compiled format templates and matched against the decision tree of FromStr (string literal comparisons and the parse path); identifier conversions and PartialEq are checked arm by arm against the canonical code classes.",
 }
@@ -33,7 +33,7 @@ CHECKS["C05"] = {
     "quick_fs": ["default"],
     "thorough_fs": ["default", "checks", "no_copy_impls", "both"],
     "technique": "exhaustive comparison of const-evaluated tables with an independent reference definition; MIR path rules for table functions and USE_TABLE plumbing",
-    "claim": "Exhaustive translation validation of all constant table data: each of the 2*(512+2048+4096) decode entries equals (value, length) of the first codeword of that look-ahead window under the reference definition of gamma/delta/zeta3 (or the missing sentinel when no whole codeword fits), each of the 2*(64+1024+1024) encode entries and 2112 LEN entries equals the reference codeword/length; sentinels cannot collide; hit lengths <= READ_BITS. Plus structural rules on every path of the 18 table functions (peek own READ_BITS, index own tables of own endianness, skip exactly the returned length on the hit path only, no stream effect on miss/peek-error) and of the 14 *_param methods and 20+ parameterless defaults (table branch only under the const flag, same default_* fallback with same arguments). Does not decide that peek_bits itself returns the right bits (C02) nor look-ahead sufficiency (T4, pending).",
+    "claim": "Exhaustive translation validation of all constant table data: each of the 2*(512+2048+4096) decode entries equals (value, length) of the first codeword of that look-ahead window under the reference definition of gamma/delta/zeta3 (or the missing sentinel when no whole codeword fits), each of the 2*(64+1024+1024) encode entries and 2112 LEN entries equals the reference codeword/length; sentinels cannot collide; hit lengths <= READ_BITS. Plus structural rules on every path of the 18 table functions (peek own READ_BITS, index own tables of own endianness, skip exactly the returned length on the hit path only, no stream effect on miss/peek-error) and of the 14 *_param methods and 20+ parameterless defaults (table branch only under the const flag, same default_* fallback with same arguments). Does not decide that peek_bits itself returns the right bits (C02) nor look-ahead sufficiency (T4, pending). Included obligations: a failed look-ahead fetch leaves the reader as it was (C09.E3), and the zero-extended source counts the words it synthesises (C13.K.read_word), so table-driven and bit-by-bit decoding agree on state and position also at the end of the data.",
     "note": "Trusted: rustc const evaluation, the exporter, refcodes.py (reference definitions written from the module docs).",
     "explanation": "tables vs reference definitions (exhaustive) + MIR path rules",
 }
@@ -66,7 +66,7 @@ CHECKS["C11"] = {
     "quick_fs": ["default"],
     "thorough_fs": ["default", "both"],
     "technique": "MIR call-site rules: transfer-count use for partial-transfer std::io calls, Result discipline, byte-order pairing; abstract interpretation of word_pos / set_word_pos for every word size and position",
-    "claim": "Decides the structural half of loss-freedom under I/O faults by reduction to std's contracts instead of enumerating fault schedules: in WordAdapter every std::io call that may legally transfer fewer bytes than asked (Read::read / Write::write) must use its returned count, while write_all/read_exact satisfy the rule by their documented contract (loop on short counts, retry Interrupted, error otherwise); every io::Result is propagated; write_word serialises exactly its argument with the byte order read_word deserialises; for W in {u8..u128} and every stream position (residue classes of the value-partition interpreter) word_pos() = ceil(stream_position / W::BYTES) and set_word_pos(w) seeks to SeekFrom::Start(w * W::BYTES), whatever arithmetic computes them. Does not decide byte values.",
+    "claim": "Decides the structural half of loss-freedom under I/O faults by reduction to std's contracts instead of enumerating fault schedules: in WordAdapter every std::io call that may legally transfer fewer bytes than asked (Read::read / Write::write) must use its returned count, while write_all/read_exact satisfy the rule by their documented contract (loop on short counts, retry Interrupted, error otherwise); every io::Result is propagated; write_word serialises exactly its argument with the byte order read_word deserialises; for W in {u8..u128} and every stream position (residue classes of the value-partition interpreter) word_pos() = ceil(stream_position / W::BYTES) and set_word_pos(w) seeks to SeekFrom::Start(w * W::BYTES), whatever arithmetic computes them. Does not decide byte values. Included obligation: flush, drop and into_inner of the bit writer end by flushing the word sink and report its error (C01.W3), so bytes handed to the adapter reach the byte sink.",
     "note": "Trusted: std::io contracts of write_all/read_exact/seek/stream_position, rustc MIR, exporter.",
     "explanation": "Structural rules over the five WordAdapter trait methods (all paths).",
 }
@@ -76,10 +76,10 @@ CHECKS["C13"] = {
     "level": "other",
     "quick_fs": ["default"],
     "thorough_fs": ["default", "both"],
-    "technique": "MIR path rules with def-use terms: element access index = entry cursor, cursor store discipline per Ok/Err path, guard shape, growth shape",
-    "claim": "For the four in-memory word streams, on every path of read_word/write_word/word_pos/set_word_pos/len: the element accessed is indexed by the entry value of the cursor, Ok paths store cursor+1 exactly once (set_word_pos: exactly the argument; zero-extended: min(arg, usize::MAX)), Err paths store nothing, the rejecting guard is position > len(data), the zero-extended reader has no error path and yields W::ZERO exactly where get() fails while still advancing, the vector writer grows with resize(cursor+1, W::ZERO) before the store and only when cursor >= len, the stored element is the argument. Because these are per-call effects on (array, cursor) that hold on all paths, every call sequence behaves as the array-with-cursor model; values of std's get/resize are std's.",
-    "note": "Trusted: std slice/Vec contracts (get, get_mut, index_mut, resize, len), rustc MIR, exporter.",
-    "explanation": "Structural effect check of each method against the array+cursor model on all paths.",
+    "technique": "abstract interpretation (value-partition interpreter over the exported MIR) of every method of the four word streams on storages of 0..=3 words x every cursor / argument cell, compared with the array-plus-cursor model",
+    "claim": "For the four in-memory word streams, read_word / write_word / word_pos / set_word_pos / len are interpreted (helpers included, whatever the shape of the code) on storages of 0, 1, 2 and 3 pairwise different words, for every cursor position up to two beyond the end as singletons and all farther positions as one cell (set_word_pos: for every argument cell likewise): the result, the cursor afterwards and the storage afterwards equal what the array-plus-cursor model of the property prescribes - the word under the cursor and cursor+1; an error and nothing changed beyond the end of a strict stream or fixed slice; zero and cursor+1 beyond the end of the zero-extended reader; zero-filled growth to cursor+1 then the store for the vector; the cursor set to any accepted position (<= length; any for the zero-extended reader), an error and the old cursor otherwise. Per-call effects on (array, cursor) compose to every call sequence. Bounded in the storage length (<= 3 words): the methods use the length only through len()/get()/indexing, which the interpreter decides exactly in every cell.",
+    "note": "Trusted: AsRef/AsMut/Deref on the storage parameter are identity views (std docs); std slice/Vec operations as documented; the interpreter sa/ivl.py; rustc MIR, exporter.",
+    "explanation": "Every method interpreted on small storages and every cursor cell against the array+cursor model.",
 }
 
 CHECKS["C01"] = {
@@ -88,7 +88,7 @@ CHECKS["C01"] = {
     "quick_fs": ["default"],
     "thorough_fs": ["default", "checks", "no_copy_impls", "both"],
     "technique": "abstract interpretation of MIR for 5 word sizes: affine forms + linear inequalities with loop summaries and ghost accounting; a bit-sequence domain (each word = list of slices of symbolic sources with affine bounds, LP-ordered) compared with the stream specification; taint/def-use rules for endianness pairing and backend use",
-    "claim": "Decides necessary structural and numeric conditions of the canonical image, not the bit values themselves: (W1) only write_word/flush ever touch the backend, so delivered words are never altered; (W2) every word handed to the backend was last converted with to_be in BE code / to_le in LE code (host-independent; invisible to tests on a little-endian host); (W3) Drop picks the flush routine of the stream's endianness, into_inner flushes exactly once before moving the backend out; (W4) for W in {u8,u16,u32,u64,u128}: every overflow/shift/bounds assert, call precondition and reachable panic of write_bits/write_unary/flush is discharged under the documented preconditions and the invariant 1 <= space_left <= W is re-established at every return; (W5) ghost accounting: write_bits returns n and appends exactly n bits, write_unary v+1, flush returns the pending count, leaves the buffer empty (idempotence) and pads with exactly one word iff bits were pending; (W6) CONTENT, in the bit-sequence domain: with P the pending bits at entry and F the field appended by the call (write_bits: bits [0, n) of value whatever its higher bits; write_unary: v zeros and a one; flush: zero padding to the boundary), on every path and for every W every word handed to the backend is exactly the next W bits of P ++ F in stream order (BE words fill from the most significant bit, LE from the least) and the buffer keeps exactly the remaining bits where the next call expects them - i.e. the canonical image of the sequence of writes, word by word. Together with W2 (byte order of each word) this is the byte image up to the backend. Undecided: copy_from and io::Write at the content level (C08/C12 have their own clauses), the backends' own storage (C11, C13).",
+    "claim": "Decides necessary structural and numeric conditions of the canonical image, not the bit values themselves: (W1) only write_word/flush ever touch the backend, so delivered words are never altered; (W2) every word handed to the backend was last converted with to_be in BE code / to_le in LE code (host-independent; invisible to tests on a little-endian host); (W3) Drop picks the flush routine of the stream's endianness, into_inner flushes exactly once before moving the backend out; (W4) for W in {u8,u16,u32,u64,u128}: every overflow/shift/bounds assert, call precondition and reachable panic of write_bits/write_unary/flush is discharged under the documented preconditions and the invariant 1 <= space_left <= W is re-established at every return; (W5) ghost accounting: write_bits returns n and appends exactly n bits, write_unary v+1, flush returns the pending count, leaves the buffer empty (idempotence) and pads with exactly one word iff bits were pending; (W6) CONTENT, in the bit-sequence domain: with P the pending bits at entry and F the field appended by the call (write_bits: bits [0, n) of value whatever its higher bits; write_unary: v zeros and a one; flush: zero padding to the boundary), on every path and for every W every word handed to the backend is exactly the next W bits of P ++ F in stream order (BE words fill from the most significant bit, LE from the least) and the buffer keeps exactly the remaining bits where the next call expects them - i.e. the canonical image of the sequence of writes, word by word. Together with W2 (byte order of each word) this is the byte image up to the backend. Undecided: copy_from and io::Write at the content level (C08/C12 have their own clauses), the backends' own storage (C11, C13). Included obligations (the sinks the image is delivered to): the in-memory sinks store each word at the cursor and advance (C13.K.write_word), the byte-stream adapter transfers every byte of every word in order with errors propagated (C11.A1-A3).",
     "note": "Trusted: rustc MIR, exporter, contract table, LP entailment. Assumptions (lemmas.json) are listed in the evidence and are never counted as discharged.",
     "explanation": "E3/E4 obligations + structural rules",
 }
@@ -99,7 +99,7 @@ CHECKS["C02"] = {
     "quick_fs": ["default"],
     "thorough_fs": ["default", "checks", "no_copy_impls", "both"],
     "technique": "abstract interpretation of MIR for 4 word sizes + unbuffered reader: affine + linear inequalities with loop summaries and ghost position; a bit-sequence domain (each word = list of slices of symbolic sources with affine bounds, LP-ordered) compared with the stream specification; taint rule for byte-order conversion of fetched words",
-    "claim": "Necessary conditions of 'readers return exactly the stream's bits': (R1) every word fetched from the backend in BE code goes through to_be (LE: to_le) before any other use; (R2) for W in {u8..u64} and the unbuffered reader: all asserts, shift amounts (incl. the double-shift idioms), call preconditions and panics of refill/peek/skip_after_peek/read_bits/read_unary/skip_bits are discharged under the documented preconditions and 0 <= bits_in_buffer < 2W is re-established at every return; (R3) ghost position pos = W*word_pos - bits_in_buffer (unbuffered: bit_index) moves by exactly n for read/skip, 0 for peek (so peeking is repeatable), result+1 for read_unary on every successful path, through multi-word slow paths and loops; (R4) Clone copies every field; (R7) CONTENT, in the bit-sequence domain, for BufBitReader over u8..u64, both endiannesses, every path: with Bf the buffered bits and w_0, w_1, ... the words fetched by the call, U = Bf ++ w_0 ++ w_1 ...; read_bits(n) and peek_bits(n) return exactly the first n bits of U, zero-extended (BE: first stream bit most significant; LE: least significant), and after read_bits / peek_bits / skip_bits / skip_bits_after_peek / read_unary the buffer holds exactly the rest of U inside its valid window and zeros outside. For the unbuffered BitReader (u64 words): read_bits/peek_bits position the backend at word bit_index/64 and return exactly the n bits at offset bit_index%64 of the words fetched from there. Undecided: read_unary of the unbuffered reader at content level (R2/R3 only); position arithmetic is assumed not to overflow for streams shorter than 2^64 bits (lemmas L1-L3).",
+    "claim": "Necessary conditions of 'readers return exactly the stream's bits': (R1) every word fetched from the backend in BE code goes through to_be (LE: to_le) before any other use; (R2) for W in {u8..u64} and the unbuffered reader: all asserts, shift amounts (incl. the double-shift idioms), call preconditions and panics of refill/peek/skip_after_peek/read_bits/read_unary/skip_bits are discharged under the documented preconditions and 0 <= bits_in_buffer < 2W is re-established at every return; (R3) ghost position pos = W*word_pos - bits_in_buffer (unbuffered: bit_index) moves by exactly n for read/skip, 0 for peek (so peeking is repeatable), result+1 for read_unary on every successful path, through multi-word slow paths and loops; (R4) Clone copies every field; (R7) CONTENT, in the bit-sequence domain, for BufBitReader over u8..u64, both endiannesses, every path: with Bf the buffered bits and w_0, w_1, ... the words fetched by the call, U = Bf ++ w_0 ++ w_1 ...; read_bits(n) and peek_bits(n) return exactly the first n bits of U, zero-extended (BE: first stream bit most significant; LE: least significant), and after read_bits / peek_bits / skip_bits / skip_bits_after_peek / read_unary the buffer holds exactly the rest of U inside its valid window and zeros outside. For the unbuffered BitReader (u64 words): read_bits/peek_bits position the backend at word bit_index/64 and return exactly the n bits at offset bit_index%64 of the words fetched from there. Undecided: read_unary of the unbuffered reader at content level (R2/R3 only); position arithmetic is assumed not to overflow for streams shorter than 2^64 bits (lemmas L1-L3). Included obligations (what the readers' argument assumes): the in-memory sources return the word under the cursor and advance, zeros beyond the end of the zero-extended one (C13.K.read_word); a failed look-ahead fetch leaves the reader as it was (C09.E3).",
     "note": "Trusted: rustc MIR, exporter, contracts, ghost model of WordRead/WordSeek, LP entailment; lemmas.json entries are assumptions.",
     "explanation": "E3/E4 obligations + structural rules",
 }
@@ -121,7 +121,7 @@ CHECKS["C12"] = {
     "quick_fs": ["default"],
     "thorough_fs": ["default", "checks", "no_copy_impls", "both"],
     "technique": "abstract interpretation of MIR with slice-length contracts (chunks_exact, try_into, copy_from_slice, range indexing) per word size; structural byte-order pairing",
-    "claim": "For the io::Write impls of BufBitWriter (u8..u128) and the io::Read impls of BufBitReader (u8..u64) and BitReader: (B1) every chunk handed to <[u8; 8]>::try_from(..).unwrap() provably has 8 bytes, the remainder is narrower than 64 bits, copy_from_slice operands have equal lengths, range indices are in bounds, read_bits/write_bits widths <= 64, invariants re-established - i.e. no word size follows a panicking or truncating path; (B2) BE impls use be byte conversions, LE impls le ones, LE remainder assembled in reverse; (B3) success returns Ok(buf.len()); (B4) failures surface as io::Error. Undecided: byte values.",
+    "claim": "For the io::Write impls of BufBitWriter (u8..u128) and the io::Read impls of BufBitReader (u8..u64) and BitReader: (B1) every chunk handed to <[u8; 8]>::try_from(..).unwrap() provably has 8 bytes, the remainder is narrower than 64 bits, copy_from_slice operands have equal lengths, range indices are in bounds, read_bits/write_bits widths <= 64, invariants re-established - i.e. no word size follows a panicking or truncating path; (B2) BE impls use be byte conversions, LE impls le ones, LE remainder assembled in reverse; (B3) success returns Ok(buf.len()); (B4) failures surface as io::Error. Undecided: byte values. Included obligations: every backend word fetched or delivered on the byte paths is converted with to_be/to_le of the stream (C02.R1, C01.W2).",
     "note": "Trusted: std contracts in sa/contracts.py, rustc MIR, exporter, LP entailment.",
     "explanation": "E3 obligations + structural rules over six bodies",
 }
@@ -142,8 +142,8 @@ CHECKS["C09"] = {
     "level": "other",
     "quick_fs": ["default"],
     "thorough_fs": ["default", "both"],
-    "technique": "Result-discipline classification of every fallible fetch on the read side (CFG paths), store-before-failure ordering rule with helper inlining, array+cursor effect rules of the backends",
-    "claim": "Structural half of 'never fabricate, never lose the tail': (E1) on every path of every bit reader, code reader, backend and adapter function, each Result of a word fetch / primitive read / code read is propagated (`?`, returned, adapted-then-propagated, or matched with an error-returning Err arm) - never unwrapped, defaulted or dropped; the only exceptions are the 12 table functions, which map a failed peek to `None` (and consume nothing: C05.T2); (E2) strict backends fail exactly where get() fails without moving, the zero-extended reader yields ZERO there and never fails; (E3) in refill and on the refill path of peek_bits nothing of the reader is stored before the failing fetch, so a failed look-ahead at the tail leaves the reader intact and the bit-by-bit fallback decodes the last codes; (E5) the byte adapter fetches whole words with read_exact. The value-level half (decodes correctly) is C02/C05's remainder; exact fetch counts (E4) are covered by C02.R3's accounting.",
+    "technique": "Result-discipline classification of every fallible fetch on the read side (CFG paths), store-before-failure ordering rule with helper inlining, array+cursor effect rules of the backends; numeric path analysis of fetch conditions (a word is fetched only when the request exceeds the buffered bits)",
+    "claim": "Structural half of 'never fabricate, never lose the tail': (E1) on every path of every bit reader, code reader, backend and adapter function, each Result of a word fetch / primitive read / code read is propagated (`?`, returned, adapted-then-propagated, or matched with an error-returning Err arm) - never unwrapped, defaulted or dropped; the only exceptions are the 12 table functions, which map a failed peek to `None` (and consume nothing: C05.T2); (E2) strict backends fail exactly where get() fails without moving, the zero-extended reader yields ZERO there and never fails; (E3) in refill and on the refill path of peek_bits nothing of the reader is stored before the failing fetch, so a failed look-ahead at the tail leaves the reader intact and the bit-by-bit fallback decodes the last codes; (E5) the byte adapter fetches whole words with read_exact. The value-level half (decodes correctly) is C02/C05's remainder; exact fetch counts (E4) are covered by C02.R3's accounting. (E4) read_bits / peek_bits / skip_bits of the buffered readers fetch a backend word only on paths where n_bits > bits_in_buffer, for W in {8..64}, so a request the buffer can serve never meets the end-of-data error.",
     "note": "Trusted: rustc MIR, exporter, std contracts (read_exact), classification table in sa/rules_result.py.",
     "explanation": "Structural rules over all read-side functions (all paths; loops entered once).",
 }
@@ -154,7 +154,7 @@ CHECKS["C07"] = {
     "quick_fs": ["default"],
     "thorough_fs": ["default", "checks", "no_copy_impls", "both"],
     "technique": "affine ghost-position accounting by abstract interpretation of MIR (loop summaries, contracts for the word backends), per word size; bit-sequence domain for the buffer content after a seek; structural rules for accessors and backends",
-    "claim": "Positions, for every history because each method is checked on all paths from an arbitrary invariant-satisfying state: bit_pos() returns pos = W*word_pos - bits_in_buffer and does not move; set_bit_pos(p) (never executed by the suite) establishes pos' = p via set_word_pos(p / W), the cleared buffer and the partial reload, with all divisions/shifts in range and the buffer-counter invariant restored; every read, skip, peek, unary read and skip-after-peek moves pos by exactly its declared amount for W in {u8..u64}; the unbuffered reader's accessors are exact; memory backends report/store the cursor exactly and reject only positions > len; the byte adapter divides and multiplies by the same W::BYTES; (S.content, bit-sequence domain) after set_bit_pos(p) the backend stands at word p / W and the buffer holds exactly the last W - p%W stream bits of the one word fetched (nothing when p%W = 0), zeros elsewhere - the state a fresh reader reaches after consuming p bits, from which C02.R7 gives the content of every later read. Undecided: seeks through the byte adapter beyond A4 (C11).",
+    "claim": "Positions, for every history because each method is checked on all paths from an arbitrary invariant-satisfying state: bit_pos() returns pos = W*word_pos - bits_in_buffer and does not move; set_bit_pos(p) (never executed by the suite) establishes pos' = p via set_word_pos(p / W), the cleared buffer and the partial reload, with all divisions/shifts in range and the buffer-counter invariant restored; every read, skip, peek, unary read and skip-after-peek moves pos by exactly its declared amount for W in {u8..u64}; the unbuffered reader's accessors are exact; memory backends report/store the cursor exactly and reject only positions > len; the byte adapter divides and multiplies by the same W::BYTES; (S.content, bit-sequence domain) after set_bit_pos(p) the backend stands at word p / W and the buffer holds exactly the last W - p%W stream bits of the one word fetched (nothing when p%W = 0), zeros elsewhere - the state a fresh reader reaches after consuming p bits, from which C02.R7 gives the content of every later read. Undecided: seeks through the byte adapter beyond A4 (C11). Included obligations: a failed look-ahead fetch does not touch the counters the position is computed from (C09.E3); the unbuffered reader's read_unary stops only on a one it found (C02.R2).",
     "note": "Trusted: rustc MIR, exporter, contracts, ghost model, LP entailment; lemma L2 (no overflow for streams < 2^64 bits).",
     "explanation": "E4 accounting + E3 + structural",
 }
@@ -176,7 +176,7 @@ CHECKS["C03"] = {
     "quick_fs": ["default", "checks"],
     "thorough_fs": ["default", "checks", "no_copy_impls", "both"],
     "technique": "reader/writer duality by replay in the value-partition abstract interpreter (the reader's MIR is interpreted on each cell with read primitives answered by the writer's emissions; result must be the affine form n); abstract interpretation of each code's MIR under its documented domain (affine + LP, pow2/ilog2 axioms, contracts); structural rule for default parameter selection",
-    "claim": "Partial, stated as such: (K1) for gamma, delta, zeta, minimal binary, pi, Rice, Golomb, exp-Golomb, omega and VByte, under the documented domains (values up to 2^64-2, zeta k in 1..=63, k <= 63, b >= 1, max >= 1) every overflow/shift/division assert, every ilog2 argument, every read_bits/write_bits width (<= 64) and every reachable panic of the write and len functions is discharged, on the default and the `checks` feature set - exactly the large-value / large-parameter corners the suite's grid does not settle; reader functions are checked up to stream-domain assumptions (a length read in unary is bounded only by what the writer emitted); (K3) each parameterless method forwards to the *_param method of the same code on self. (K2) for gamma, delta, zeta_k, omega, pi_k, Rice_k and minimal binary (enumerated parameters, both endiannesses, non-table paths) and for EVERY value of the domain: interpreting the reader's MIR on each cell, with read_unary/read_bits(n) answered by the primitives the writer emitted on that cell (same order, same widths, low n bits of the written operand), consumes all of them and returns exactly n - round trip at the level of stream primitives, which together with C01/C02 (primitives round-trip at any offset) and C05 (tables = bit-by-bit) gives the property for these codes. Golomb_b (b enumerated) is covered the same way on residue classes n = b*y + r (K2.golomb: the reader returns b*y + r). exp-Golomb_k for k <= 3 (quick) on the classes n = 2^k*y + r. omega (both endiannesses; the reader's peek_bits(1)/skip_bits_after_peek(1)/read_bits(l+1) are answered from the writer's blocks, the first stream bit of a block being determined on every cell). NOT decided: VByte read-back (K1 only), exp-Golomb for larger k, table-driven read paths (C05), parameters outside the enumerated lists; a reader that regroups the same bits into different primitives than the writer is reported as undecidable by K2 (violation), by design.",
+    "claim": "Partial, stated as such: (K1) for gamma, delta, zeta, minimal binary, pi, Rice, Golomb, exp-Golomb, omega and VByte, under the documented domains (values up to 2^64-2, zeta k in 1..=63, k <= 63, b >= 1, max >= 1) every overflow/shift/division assert, every ilog2 argument, every read_bits/write_bits width (<= 64) and every reachable panic of the write and len functions is discharged, on the default and the `checks` feature set - exactly the large-value / large-parameter corners the suite's grid does not settle; reader functions are checked up to stream-domain assumptions (a length read in unary is bounded only by what the writer emitted); (K3) each parameterless method forwards to the *_param method of the same code on self. (K2) for gamma, delta, zeta_k, omega, pi_k, Rice_k and minimal binary (enumerated parameters, both endiannesses, non-table paths) and for EVERY value of the domain: interpreting the reader's MIR on each cell, with read_unary/read_bits(n) answered by the primitives the writer emitted on that cell (same order, same widths, low n bits of the written operand), consumes all of them and returns exactly n - round trip at the level of stream primitives, which together with C01/C02 (primitives round-trip at any offset) and C05 (tables = bit-by-bit) gives the property for these codes. Golomb_b (b enumerated) is covered the same way on residue classes n = b*y + r (K2.golomb: the reader returns b*y + r). exp-Golomb_k for k <= 3 (quick) on the classes n = 2^k*y + r. omega (both endiannesses; the reader's peek_bits(1)/skip_bits_after_peek(1)/read_bits(l+1) are answered from the writer's blocks, the first stream bit of a block being determined on every cell). NOT decided: VByte read-back (K1 only), exp-Golomb for larger k, table-driven read paths (C05), parameters outside the enumerated lists; a reader that regroups the same bits into different primitives than the writer is reported as undecidable by K2 (violation), by design. Included obligations: the VByte writers' bytes are exactly what the reader's stop rule expects (C18.V4 on bit streams); the bit primitives the codes go through return / deliver exactly the stream's bits (C01.W6, C02.R7 for the buffered and unbuffered readers; word size 64 in the quick tier, all sizes in the thorough tier) and the unbuffered read_unary stops only on a one it found (C02.R2).",
     "note": "Trusted: rustc MIR, exporter, contracts incl. codeword length bounds, LP entailment. Lemmas L4-L7 and the stream-domain assumption are listed in the evidence and never counted as discharged.",
     "explanation": "E3 obligations + structural rule",
 }
